@@ -10,7 +10,7 @@ import (
 // dispatcherRule: every batch line in range is started exactly once and every
 // started run's result is collected (shared by C03 and C11).
 func dispatcherRule(p *Prog, r *Report, rule string) {
-	r.Rule(rule, "dispatcher: the goroutine launch of a batch line cannot be skipped (its slot guard is implied by the exit condition of the preceding wait loop and by the counter invariant); the active-run counter is incremented only next to the launch and decremented only on a received result, which is also handed to the error summary; a drain loop collects the remaining results; every channel handed to a run is made unconditionally", 7)
+	r.Rule(rule, "dispatcher: the goroutine launch of a batch line cannot be skipped (its slot guard is implied by the exit condition of the preceding wait loop and by the counter invariant); the active-run counter is incremented only next to the launch and decremented only on a received result, which is also handed to the error summary; a drain loop collects the remaining results; every channel handed to a run is made unconditionally; every receive site keeps the summary in the list that is printed", 8)
 	key := "hermes2go.doConcurrentBatchRun"
 	fi := p.Funcs[key]
 	x := walked(p, key)
@@ -235,6 +235,7 @@ func dispatcherRule(p *Prog, r *Report, rule string) {
 	}
 	// select clauses
 	recv := 0
+	var summaryTargets []types.Object
 	ast.Inspect(fi.Decl.Body, func(n ast.Node) bool {
 		cc, ok := n.(*ast.CommClause)
 		if !ok || cc.Comm == nil {
@@ -270,6 +271,18 @@ func dispatcherRule(p *Prog, r *Report, rule string) {
 		}
 		recv++
 		dec, summary := false, false
+		// the statement that hands the result to the summary: an assignment whose target is recorded
+		for _, st := range cc.Body {
+			if as, ok := st.(*ast.AssignStmt); ok && len(as.Lhs) == 1 && len(as.Rhs) == 1 {
+				if call, ok := as.Rhs[0].(*ast.CallExpr); ok {
+					for _, a := range call.Args {
+						if aid, ok := a.(*ast.Ident); ok && got != nil && info.Uses[aid] == got {
+							summaryTargets = append(summaryTargets, useObj(info, as.Lhs[0]))
+						}
+					}
+				}
+			}
+		}
 		for _, s := range cc.Body {
 			if inc, ok := s.(*ast.IncDecStmt); ok && inc.Tok == token.DEC {
 				if cid, ok := inc.X.(*ast.Ident); ok && info.Uses[cid] == counter {
@@ -292,6 +305,28 @@ func dispatcherRule(p *Prog, r *Report, rule string) {
 	})
 	if recv < 2 {
 		r.Ob("receive", "-", false, fmt.Sprintf("%d receive sites on the result channel, expected the wait loop and the drain loop", recv))
+	}
+	// every receive site keeps what the summary function returns, in the one variable that is printed after the drain loop
+	{
+		var printed types.Object
+		for _, st := range fi.Decl.Body.List {
+			if rs, ok := st.(*ast.RangeStmt); ok && rs.Pos() > L.Stmt.End() {
+				if o := useObj(info, rs.X); o != nil {
+					printed = o
+				}
+			}
+		}
+		okS := printed != nil && len(summaryTargets) == recv && recv > 0
+		for _, o := range summaryTargets {
+			if o != printed {
+				okS = false
+			}
+		}
+		name := "-"
+		if printed != nil {
+			name = printed.Name()
+		}
+		r.Ob("summary-kept", p.Pos(fi.Decl.Pos()), okS, fmt.Sprintf("%d of %d receive sites assign the summary function's result to %s, the list printed after the drain loop (a site that drops it loses the failures collected there)", len(summaryTargets), recv, name))
 	}
 	// drain loop after the range: for counter > 0
 	drain := false
